@@ -1123,6 +1123,35 @@ theorem auctionClose_pres {cfg : Cfg} {s s' : State} {u k : Nat} {paid recv left
       | exact tl_borrowDelLiq (core_interest c _ _ _) (tl_of_addTotalInterest _ _ _ _ _ _ t) (getBorrow_id hb) hq
       | exact tl_borrowDelLiq c t (getBorrow_id hb) hq
 
+/-! ### the block hook: only balances, reserve records and the deleted-pools list move -/
+
+/-- positions, totals and counters are the same -/
+def SameBooks (s s' : State) : Prop :=
+  s'.lends = s.lends ∧ s'.borrows = s.borrows ∧ s'.stats = s.stats ∧ s'.lendCtr = s.lendCtr ∧ s'.borrowCtr = s.borrowCtr ∧ s'.locked = s.locked
+
+theorem pres_of_frame {cfg : Cfg} {s s' : State} (f : SameBooks s s') : Pres cfg s s' := by
+  obtain ⟨h1, h2, h3, h4, h5, _⟩ := f
+  refine ⟨fun c => ?_, fun _ t => ?_⟩
+  · unfold CoreS at *; rw [h1, h2, h3, h4, h5]; exact c
+  · unfold TotalLendEq at *; rw [h1, h2, h3]; exact t
+
+theorem sweepPool_frame {cfg : Cfg} {s s' : State} {p : Nat} (h : sweepPool cfg s p = .ok s') : SameBooks s s' := by
+  unfold sweepPool at h
+  invert h
+  all_goals exact ⟨rfl, rfl, rfl, rfl, rfl, rfl⟩
+
+theorem sweepPools_frame {cfg : Cfg} (ps : List Nat) {s s' : State} (h : sweepPools cfg s ps = .ok s') : SameBooks s s' := by
+  induction ps generalizing s with
+  | nil => unfold sweepPools at h; cases h; exact ⟨rfl, rfl, rfl, rfl, rfl, rfl⟩
+  | cons p ps ih =>
+    simp only [sweepPools] at h
+    invert h
+    obtain ⟨a1, a2, a3, a4, a5, a6⟩ := sweepPool_frame ‹sweepPool cfg s p = .ok _›
+    obtain ⟨b1, b2, b3, b4, b5, b6⟩ := ih ‹sweepPools cfg _ ps = .ok s'›
+    exact ⟨by rw [b1, a1], by rw [b2, a2], by rw [b3, a3], by rw [b4, a4], by rw [b5, a5], by rw [b6, a6]⟩
+
+theorem beginBlock_frame {cfg : Cfg} {s s' : State} (h : beginBlock cfg s = .ok s') : SameBooks s s' := sweepPools_frame _ h
+
 /-! ### one step -/
 
 def Op.isHandover : Op → Bool
@@ -1151,7 +1180,8 @@ theorem step_pres {cfg : Cfg} {s s' : State} {op : Op} (h : step cfg s op = .ok 
     | fundReserve => exact fundReserve_pres h
     | setPrice a t => simp only [Except.ok.injEq] at h; subst h; exact setPrice_pres
     | setKill a on => simp only [Except.ok.injEq] at h; subst h; exact ⟨fun c => c, fun _ t => t⟩
-    | setDepreciated p => simp only [Except.ok.injEq] at h; subst h; exact ⟨fun c => c, fun _ t => t⟩
+    | setDepreciated p f => simp only [Except.ok.injEq] at h; subst h; exact ⟨fun c => c, fun _ t => t⟩
+    | beginBlock => exact pres_of_frame (beginBlock_frame h)
     | bid => exact auctionBid_pres h
     | auctionClose => exact auctionClose_pres h
 
